@@ -924,8 +924,13 @@ class Exporter {
         j.raw("fields", jlist(fs));
         std::vector<std::string> bs;
         if (!dep)
-            for (const CXXBaseSpecifier &B : RD->bases())
-                bs.push_back("\"" + jesc(typeStr(B.getType())) + "\"");
+            for (const CXXBaseSpecifier &B : RD->bases()) {
+                J b;
+                b.str("t", typeStr(B.getType()));
+                if (const CXXRecordDecl *BD = B.getType()->getAsCXXRecordDecl())
+                    b.num("recid", declId(BD));
+                bs.push_back(b.done());
+            }
         j.raw("bases", jlist(bs));
         if (!dep) {
             j.boolean("trivdtor", RD->hasTrivialDestructor());
